@@ -287,6 +287,7 @@ def run_check(mod, argv):
     ctx.tier, ctx.seed, ctx.rng, ctx.pid = tier, seed, random.Random(seed), pid
     ctx.verif = VERIF
     ctx.stats = {}
+    ctx.coqchk_admit = list(getattr(mod, "COQCHK_ADMIT", []))
 
     # 1. Coq obligations
     coq = coq_build(pid, os.path.join(VERIF, ".cache", "logs", "coq_%s.log" % pid))
